@@ -71,7 +71,7 @@ const MULTI: [(&[usize], &[usize]); 8] = [
     (&[0, 1, 0], &[0, 1]),
     // signer 2 is the negation of signer 0: a prefix of the list sums to the identity, the whole list does not
     (&[0, 2, 1], &[0, 2, 1]),
-    (&[1, 0, 2, 1], &[1, 0, 2, 1]),
+    (&[0, 1, 2, 1], &[0, 1, 2, 1]),
 ];
 
 impl St {
